@@ -1,5 +1,6 @@
 import Pm.Dev2Count
 import Pm.ClientStream
+import Pm.Dev2Timer
 /-! # C04 — every request gets exactly one final answer, in bounded time
 
 Ranking: conservation of completions (device half of `pending_eq_queued`: done) ▸ one terminal reply per
@@ -32,7 +33,8 @@ open Pm Pm.Daemon Pm.Client Pm.Daemon.ClientPf
     outcomes:
 
     (a) the process is gone — and then nothing else changed, and the cause is the `hostlist_sort` assertion, on the
-        configured node list (`nodes`) or on a device's plug list (`device`); never `hostlist_create` (F1 is repaired);
+        configured node list (`nodes`) or on a device's plug list (`device`); never `hostlist_create` (F1 is repaired)
+        (`SortRes.Died` = the assert, or — in the logic only — the iteration bound of the sort mirror running out);
     (b) the line was answered at once: the client's output grew by `render items` where `items` is zero or more
         informational lines (301, 304, 306, 307), then exactly ONE terminal line (101, 103, 104, 105, 201, 205, 208, 209, 213),
         then the prompt exactly when the code is neither 208 nor 101 and the client has not quit; the bytes sit in `to`
@@ -41,7 +43,7 @@ open Pm Pm.Daemon Pm.Client Pm.Daemon.ClientPf
         single terminal reply comes from `_act_finish`, see `C04_completion_reply`). -/
 theorem C04_one_reply_per_line (w : W) (c : Cli) (line : Pm.Client.Bytes) :
     ((parseLine w c line) = ({ w with exited := true }, c) ∧
-        (sortHL w.cfg.nodes = .abort ∨ ∃ nd ∈ w.devs, sortHL (devHosts nd.2) = .abort)) ∨
+        ((sortHL w.cfg.nodes).Died ∨ ∃ nd ∈ w.devs, (sortHL (devHosts nd.2)).Died)) ∨
     (∃ infos code text,
         (∀ i ∈ infos, i.lineIn [301, 304, 306, 307] = true) ∧
         code ∈ [101, 103, 104, 105, 201, 205, 208, 209, 213] ∧
@@ -66,8 +68,8 @@ theorem C04_prompt_rule (quit : Bool) (code : Nat) :
     promptAfter quit code = true ↔ code ≠ 208 ∧ code ≠ 101 ∧ quit = false := by
   simp [promptAfter, and_assoc]
 
-/- non-vacuity: each outcome occurs.  (Outcome (a) needs a host list on which `sortHL` aborts; `sortHL` is a `partial def`
-   and cannot be evaluated inside the logic — see `Props/C06.lean`, `C06_nodes_sort_exit`.) -/
+/- non-vacuity: each outcome occurs.  (Outcome (a) needs a host list on which `sortHL` aborts: `f[97-100,066,97-103]`,
+   see `Props/C06.lean`, `C06_nodes_sort_exit`, and `Props/C14.lean`, `C14_sort_abort_counterexample`.) -/
 example : (parseLine Ex.world Ex.idle (bstr "telemetry\r\n")).2.toBuf =
     render [.line 104 (bstr "Telemetry ON"), .prompt] := by decide +kernel
 example : (parseLine Ex.world Ex.idle (bstr "nodes\r\n")).2.toBuf =
@@ -147,5 +149,185 @@ theorem C04_prompt_after_quit_counterexample :
   decide +kernel
 
 end client
+
+/-! ## device half: timer coverage ("no wedge"), tenure, the minimum over the devices
+
+`postPoll d env o` is the mirror of one device's share of `dev_post_poll`; its result is `(c', o', out, tmo)`: the pass
+state (`c'.dev` the device, `c'.aborted` = the pass ended in a modelled `assert`/fuel stop), the oracle rest, the callbacks
+and the time-out the device registered through `_update_timeout` (`none` = it registered nothing, `poll` would block for
+ever on its behalf).  Helper lemmas: `Pm/Dev2Timer.lean`. -/
+section timers
+open Pm.Dev2.Timer
+
+/-- the time of the pass and the device's time-out are constants of a pass -/
+theorem C04_pass_constants (d : Dev) (env : Env) (o : Oracle) :
+    (postPoll d env o).1.env.now = env.now ∧ (postPoll d env o).1.dev.timeout = d.timeout :=
+  postPoll_now d env o
+
+/- Full statement asked for (`C04_no_wedge`): after a pass that did not abort, `d'.acts ≠ []` implies `tmo = some t`, and
+   `t ≤ ts + timeout − now` for the head's time stamp `ts`.  It is FALSE of the mirror (and of `device.c`):
+   `C04_no_wedge_counterexample`.  What holds is `C04_no_wedge_partial`: the one exception is spelled out in it. -/
+
+/-- **Counterexample to "a timer is registered whenever work is queued".**  A connected, logged-in coprocess device whose
+    head action is overdue: `_process_action` fails the queue, calls `_reconnect`, the new connection is up at once,
+    `_connect` enqueues the login action — and the loop is left by `break` without the new head having been looked at:
+    the queue holds the login action and NOTHING is registered.  (With a tcp device the same happens when `connect()`
+    succeeds at once.)  The login script starts only when something else wakes `poll`; if it starts with a `send`, and
+    the device waits for it, nothing on this device's descriptor ever will. -/
+theorem C04_no_wedge_counterexample :
+    (postPoll Ex.pipeBusy Ex.envLate ⟨[]⟩).1.aborted = false ∧
+    (postPoll Ex.pipeBusy Ex.envLate ⟨[]⟩).1.dev.acts.length = 1 ∧
+    (postPoll Ex.pipeBusy Ex.envLate ⟨[]⟩).2.2.2 = none := by decide
+
+/-- **No wedge (partial: the exception is the second alternative).**  After a `dev_post_poll` pass that did not abort, if
+    the device's queue is not empty then EITHER its head carries a time stamp `ts`, its deadline `ts + timeout` lies
+    ahead, and a time-out `t` is registered with `t ≤ ts + timeout − now` — the daemon wakes no later than the head's
+    deadline — OR the head carries no time stamp, and then it is a login action (script 0, no client), alone in the
+    queue of a device that is CONNECTED and not logged in: the action `_reconnect` enqueued after the error branch of
+    this very pass (`C04_no_wedge_counterexample`).  For every device, queue, script, oracle and kernel answer. -/
+theorem C04_no_wedge_partial (d : Dev) (env : Env) (o : Oracle) (hna : (postPoll d env o).1.aborted = false)
+    (h : Action) (rest : List Action) (hq : (postPoll d env o).1.dev.acts = h :: rest) :
+    (∃ ts t, h.timeStamp = some ts ∧ env.now < ts + d.timeout ∧ (postPoll d env o).2.2.2 = some t ∧
+        t ≤ ts + d.timeout - env.now) ∨
+    (h.timeStamp = none ∧ rest = [] ∧ h.com = 0 ∧ h.clientId = 0 ∧ (postPoll d env o).1.dev.conn = 2 ∧
+        (postPoll d env o).1.dev.loggedIn = false) := by
+  have hn := postPoll_now d env o
+  rcases (postPoll_timer d env o hna).1 h rest hq with ⟨ts, h1, h2, t, h3, h4⟩ | h5
+  · rw [hn.1, hn.2] at h2 h4
+    exact Or.inl ⟨ts, t, h1, h2, h3, h4⟩
+  · exact Or.inr h5
+
+/-- … hence no CLIENT request is ever left without a timer: if any action of a client is queued after the pass, the
+    head is stamped and the registered time-out is no later than the head's deadline -/
+theorem C04_no_wedge_clients (d : Dev) (env : Env) (o : Oracle) (hna : (postPoll d env o).1.aborted = false)
+    (x : Action) (hx : x ∈ (postPoll d env o).1.dev.acts) (hc : x.clientId ≠ 0) :
+    ∃ h rest ts t, (postPoll d env o).1.dev.acts = h :: rest ∧ h.timeStamp = some ts ∧ env.now < ts + d.timeout ∧
+      (postPoll d env o).2.2.2 = some t ∧ t ≤ ts + d.timeout - env.now := by
+  cases hq : (postPoll d env o).1.dev.acts with
+  | nil => rw [hq] at hx; cases hx
+  | cons h rest =>
+    rcases C04_no_wedge_partial d env o hna h rest hq with ⟨ts, t, h1, h2, h3, h4⟩ | ⟨_, h2, _, h4, _⟩
+    · exact ⟨h, rest, ts, t, rfl, h1, h2, h3, h4⟩
+    · rw [hq, h2] at hx
+      simp only [List.mem_singleton] at hx
+      rw [hx] at hc; exact absurd h4 hc
+
+/-- non-vacuity: a connected device whose head waits for the device (`expect`) 0.4 s into its 1 s time-out registers
+    the remaining 0.6 s; so does a device that is not connected (there the attempt of this pass failed at once) -/
+example : (postPoll Ex.tcpBusy Ex.envEarly ⟨[]⟩).1.aborted = false ∧
+    (postPoll Ex.tcpBusy Ex.envEarly ⟨[]⟩).1.dev.acts.map (·.clientId) = [1, 2] ∧
+    (postPoll Ex.tcpBusy Ex.envEarly ⟨[]⟩).2.2.2 = some 600000 := by decide
+example : (postPoll Ex.tcpDown Ex.envEarly ⟨[]⟩).1.aborted = false ∧ (postPoll Ex.tcpDown Ex.envEarly ⟨[]⟩).1.dev.conn = 0 ∧
+    (postPoll Ex.tcpDown Ex.envEarly ⟨[]⟩).2.2.2 = some 600000 := by decide
+
+/- Full statement asked for: "if `d'.conn = 0` and `d'.retryCount > 0` then `t ≤ lastRetry + rtab[..]·10⁶ − now`".  FALSE:
+   `C04_backoff_not_registered_counterexample`.  What holds: `C04_backoff_covered_partial`. -/
+
+/-- **The back-off is covered (partial: the exception is the second alternative).**  After a pass that did not abort, if
+    the device is NOT_CONNECTED and an attempt has been made (`retry_count > 0`), then EITHER the back-off is still
+    running and a time-out `t ≤` its remainder is registered, OR `last_retry` is the time of this pass: the attempt
+    was made (and failed) in this very pass, and `_reconnect` registers nothing for the back-off that now begins —
+    only a later pass, whenever something causes one, does.  (`backoffEnd d = d.lastRetry + rtab[min (retryCount−1) 6]·10⁶`.) -/
+theorem C04_backoff_covered_partial (d : Dev) (env : Env) (o : Oracle) (hna : (postPoll d env o).1.aborted = false)
+    (h0 : (postPoll d env o).1.dev.conn = 0) (hr : 0 < (postPoll d env o).1.dev.retryCount) :
+    (env.now < backoffEnd (postPoll d env o).1.dev ∧
+      ∃ t, (postPoll d env o).2.2.2 = some t ∧ t ≤ backoffEnd (postPoll d env o).1.dev - env.now) ∨
+    (postPoll d env o).1.dev.lastRetry = env.now := by
+  have hn := (postPoll_now d env o).1
+  have := (postPoll_timer d env o hna).2 h0 hr
+  rw [hn] at this
+  exact this
+
+/-- **Counterexample: the back-off that begins with a failed attempt is not registered.**  An idle tcp device that is not
+    connected; `connect()` fails at once: after the pass the device is NOT_CONNECTED with `retry_count = 1` and NO
+    time-out is registered — the daemon does not wake after the one second of `rtab[0]` on this device's behalf.  A
+    second pass (0.1 s later, caused by something else) does register the remaining 0.9 s. -/
+theorem C04_backoff_not_registered_counterexample :
+    (postPoll Ex.tcpIdle Ex.envEarly ⟨[]⟩).1.aborted = false ∧ (postPoll Ex.tcpIdle Ex.envEarly ⟨[]⟩).1.dev.conn = 0 ∧
+    (postPoll Ex.tcpIdle Ex.envEarly ⟨[]⟩).1.dev.retryCount = 1 ∧ (postPoll Ex.tcpIdle Ex.envEarly ⟨[]⟩).2.2.2 = none ∧
+    (postPoll (postPoll Ex.tcpIdle Ex.envEarly ⟨[]⟩).1.dev { Ex.envEarly with now := 500000 } ⟨[]⟩).2.2.2 = some 900000 := by
+  decide
+
+/-- **Tenure.**  `_process_action` called — with any positive fuel — on a queue whose head carries time stamp `ts` with
+    `now ≥ ts + timeout` takes the time-out branch at once: the result is that of the error branch `failAll` applied to
+    the head (its error set to connect time-out / login time-out / expect failure according to the device state) and
+    the rest of the queue.  So under the poll contract "the next pass happens no later than the registered time-out"
+    (`C04_no_wedge_partial`: the registered time-out is no later than the head's deadline) a head's tenure ends by its
+    deadline.  What the error branch does to the queue and to the clients: `C04_tenure_queue`, `Props/C12`. -/
+theorem C04_tenure (fuel : Nat) (c : CS) (o : Oracle) (out : List Out) (tmo : Option Time)
+    (a0 : Action) (rest : List Action) (ts : Time) (hna : c.aborted = false) (hacts : c.dev.acts = a0 :: rest)
+    (hts : a0.timeStamp = some ts) (hdue : c.env.now ≥ ts + c.dev.timeout) :
+    processActionF (fuel + 1) c o out tmo =
+      failAll rest c { a0 with errnum := Pm.Dev2.Fd.timeoutErr c.dev } o (out ++ Pm.Dev2.Fd.timeoutTele c.dev a0) tmo :=
+  processActionF_overdue fuel c o out tmo a0 rest ts hna hacts hts hdue
+
+/-- … and the queue the error branch leaves holds nothing of any client: it is empty, or (device was CONNECTED, the
+    reconnect went through at once) it holds exactly the fresh login action -/
+theorem C04_tenure_queue (rest : List Action) (c : CS) (a : Action) (o : Oracle) (out : List Out) (tmo : Option Time)
+    (hna : (failAll rest c a o out tmo).1.aborted = false) :
+    (failAll rest c a o out tmo).1.dev.acts = [] ∨
+    ((failAll rest c a o out tmo).1.dev.acts = [loginAction c.dev] ∧ (failAll rest c a o out tmo).1.dev.conn = 2 ∧
+      (failAll rest c a o out tmo).1.dev.loggedIn = false) :=
+  failAll_queue rest c a o out tmo hna
+
+/-- **Tenure, whole pass.**  The device is not NOT_CONNECTED, `poll` reports nothing on its descriptor (the pass was
+    caused by the timer, or by somebody else), the head of its queue carries time stamp `ts` and `now ≥ ts + timeout`:
+    then after the pass every client action that was queued has been reported exactly once and none is queued any
+    more; and unless the pass aborted the queue is empty or holds one unstamped login action.
+    (When `poll` does report something for the device the head can change before `_process_action` runs: a completed
+    connect puts the login action in front of it — the overdue action then waits, with its old time stamp, until the
+    login has finished or timed out; an i/o error removes a login action at the head.) -/
+theorem C04_tenure_pass (d : Dev) (env : Env) (o : Oracle) (a0 : Action) (rest : List Action) (ts : Time)
+    (hfl : (if d.fd.isSome then env.revents else 0) = 0) (hc : d.conn ≠ 0)
+    (hacts : d.acts = a0 :: rest) (hts : a0.timeStamp = some ts) (hdue : env.now ≥ ts + d.timeout) :
+    (∀ cid, cid ≠ 0 → fcount cid (postPoll d env o).2.2.1 = qcount cid d.acts ∧
+        qcount cid (postPoll d env o).1.dev.acts = 0) ∧
+    ((postPoll d env o).1.aborted = false →
+      (postPoll d env o).1.dev.acts = [] ∨ ∃ l, (postPoll d env o).1.dev.acts = [l] ∧ l.com = 0 ∧ l.clientId = 0 ∧
+        l.timeStamp = none) :=
+  postPoll_overdue d env o a0 rest ts hfl hc hacts hts hdue
+
+/-- non-vacuity: the tcp device with two client actions, 2 s after the head was stamped (time-out 1 s): both are
+    reported (the head with the expect failure, the second as aborted), the queue is empty (the reconnect fails) -/
+example : (if Ex.tcpBusy.fd.isSome then Ex.envLate.revents else 0) = 0 ∧ Ex.tcpBusy.conn ≠ 0 ∧
+    Ex.tcpBusy.acts = Ex.act1 :: [Ex.act2] ∧ Ex.act1.timeStamp = some 0 ∧ Ex.envLate.now ≥ 0 + Ex.tcpBusy.timeout :=
+  ⟨by decide, by decide, rfl, rfl, by decide⟩
+example : (postPoll Ex.tcpBusy Ex.envLate ⟨[]⟩).1.dev.acts = [] ∧
+    fcount 1 (postPoll Ex.tcpBusy Ex.envLate ⟨[]⟩).2.2.1 = 1 ∧ fcount 2 (postPoll Ex.tcpBusy Ex.envLate ⟨[]⟩).2.2.1 = 1 := by decide
+
+/-- **No zero is ever registered.**  In C a zero `struct timeval` means "nothing registered" (`_update_timeout` tests
+    `timerisset`, `_select_loop` hands `poll` a NULL time-out), the mirror says `none`; the two agree because every
+    time-out a device registers — head deadline, scripted delay, back-off, next ping — is positive.  All devices,
+    queues, scripts, oracles, kernel answers; aborting passes included. -/
+theorem C04_timeout_positive (d : Dev) (env : Env) (o : Oracle) (t : Time) (h : (postPoll d env o).2.2.2 = some t) : 0 < t :=
+  postPoll_pos d env o t h
+
+end timers
+
+section daemonTimer
+open Pm.Daemon
+
+/-- **The daemon's poll time-out is the minimum over the devices.**  In `daemonPass` (the body of `_select_loop`), when the
+    client half did not end the process: whatever time-out `t` the `i`-th device registers in its turn of
+    `dev_post_poll` (its turn is reached with the pass alive), the time-out kept for the next `poll` is set and `≤ t`.
+    Together with `C04_no_wedge_partial` per device: the daemon wakes no later than the earliest head deadline. -/
+theorem C04_timeout_min (w : W) (p : PassIn) (hex : (cliPostPoll w p.acc p.envs).exited = false)
+    (i : Nat) (nd : Bytes × Dev) (t : Nat)
+    (hi : (cliPostPoll w p.acc p.envs).devs[i]? = some nd)
+    (hd : (accAt p (acc0 (cliPostPoll w p.acc p.envs)) (cliPostPoll w p.acc p.envs).devs i).dead = false)
+    (ht : (stepOut p (accAt p (acc0 (cliPostPoll w p.acc p.envs)) (cliPostPoll w p.acc p.envs).devs i) nd).2.2 = some t) :
+    ∃ t', (daemonPass w p).1.tmo = some t' ∧ t' ≤ t :=
+  Pm.Dev2.Timer.daemonPass_tmo_min w p hex i nd t hi hd ht
+
+/-- what `stepOut` is: the time-out component of the device's own `postPoll`, run on the shared argument store with the
+    kernel answers addressed to it -/
+example (p : PassIn) (a : DevAcc) (nd : Bytes × Dev) :
+    (stepOut p a nd).2.2 = (postPoll { nd.2 with args := a.w.store } (devEnv p a.w nd) a.oracle).2.2.2 := rfl
+
+/-- non-vacuity: in the example pass of `Props/C05` device `B` (index 1) registers its head's deadline and that is the
+    time-out of the pass -/
+example : (daemonPass Pm.Daemon.Ex.w1 Pm.Daemon.Ex.pin).1.tmo = some 4999000 := by decide +kernel
+
+end daemonTimer
 
 end Pm.Props.C04
